@@ -16,6 +16,9 @@ R04.2 "FIPS-197 round constants": the immediates of the aeskeygenassist instruct
       results consumed through the SubWord dword (pshufd 0xAA / 0x00) carry no round constant and are exempt.
 R04.3 "CBC ... for any data alignment": in the 15 CBC bodies no alignment-demanding instruction addresses memory
       through the in or out argument (IV and the key structure are documented as 16-byte aligned).
+R04.6 "in place or out of place": in the 15 CBC bodies, with the input and output pointers equated, no load through
+      the input argument reads bytes that a store through the output argument has already written on some path to
+      it - CBC decryption must keep the previous ciphertext block before overwriting it (lib/inplace.py).
 R04.4 instance floor: 8 key-expansion bodies, 15 CBC bodies, each with the argument list of aes_keyexp.c / aes_cbc.c.
 """
 import collections
@@ -26,6 +29,7 @@ import align
 import build
 import c19
 import cands
+import inplace
 import ir
 import x86
 from report import Finding
@@ -217,6 +221,8 @@ def run(chk):
     chk.floor("key-expansion bodies", len(kcand), 8)
     chk.floor("CBC bodies", len(ccand), 15)
     chk.obligation("R04.4", len(kcand) >= 8 and len(ccand) >= 15, key="floors", sample={"keyexp_bodies": sorted(kcand), "cbc_bodies": sorted(ccand)})
+    nbind = cands.binding_rule(chk, "R04.5", lib, ['_aes_cbc_', '_aes_keyexp_'])
+    chk.floor("implementations checked for binding ownership", nbind, 1)
     nstores = 0
     nterms = 0
     for name in sorted(kcand):
@@ -303,6 +309,7 @@ def run(chk):
     # R04.3
     nsinks = 0
     nacc = 0
+    npairs = 0
     for name in sorted(ccand):
         iface, sig = ccand[name]
         f = lib.func_named(name)
@@ -344,12 +351,25 @@ def run(chk):
                 badi = (i, None, nd)
             elif hit and badi is None:
                 badi = (i, hit[0], nd)
+        # R04.6 in-place hazard
+        inr = [r for r, n_ in bufs.items() if n_ == "in"][0]
+        outr = [r for r, n_ in bufs.items() if n_ == "out"][0]
+        try:
+            ipr = inplace.analyse(f, inr, outr, p1)
+            npairs += ipr.compared
+            chk.obligation("R04.6", not ipr.hazards, key=(name, "in-place"), sample={"function": name, "pairs_compared": ipr.compared})
+            if ipr.hazards:
+                l, st_, d = ipr.hazards[0]
+                chk.finding(Finding("R04.6", o.name, name, "in-place", "`%s` reads the input at an address that `%s` (%s) has already written through the output pointer when in == out (%s; %d such pair(s)): an in-place call processes its own output instead of the caller's data" % (l.text.strip(), st_.text.strip(), o.line_of(f.sec, st_.addr), d, len(ipr.hazards)), loc=o.line_of(f.sec, l.addr)))
+        except RuntimeError as e:
+            chk.broke(str(e))
         chk.obligation("R04.3", badi is None, key=(name, "align"), sample={"function": name, "buffers": bufs})
         if badi:
             i, r, nd = badi
             chk.finding(Finding("R04.3", o.name, name, "align:%s" % (bufs[r] if r else "unknown-address"),
                                 "`%s` demands %d-byte alignment of %s; CBC promises any data alignment" % (i.text.strip(), nd, "memory addressed through the caller's %s pointer (%s)" % (bufs[r], r.lower()) if r else "an address the provenance analysis cannot classify"),
                                 loc=o.line_of(f.sec, i.addr)))
+    chk.floor("CBC output-store / input-load pairs compared for in-place hazards", npairs, 300)
     chk.floor("key-schedule stores seen", nstores, 150)
     chk.floor("CBC accesses through in/out", nacc, 300)
     chk.floor("CBC alignment-demanding instructions classified", nsinks, 1000)
